@@ -1390,4 +1390,117 @@ theorem strncatTail_spec (c : List Byte) (n : Nat) (m : Mem) (s1 s2 : Nat) (c0 :
     · simp [strncatTail_succ, catStep, hs.1, wr_upd hd.1, hx, e]
     · simpa using holds_cons_of_upd ho hh
 
+/-! ### round 3: strtok histories -/
+
+/-- `takeWhile` / `dropWhile` split a list; the first part satisfies `p`, the head of the second does not -/
+theorem span_spec (p : Byte → Bool) : ∀ l : List Byte,
+    l = l.takeWhile p ++ l.dropWhile p ∧ (∀ y ∈ l.takeWhile p, p y = true) ∧
+    (∀ x r', l.dropWhile p = x :: r' → p x = false)
+  | [] => by simp
+  | a :: l => by
+    have ih := span_spec p l
+    by_cases h : p a = true
+    · simp only [List.takeWhile_cons, List.dropWhile_cons, h, if_true]
+      refine ⟨by simpa using ih.1, ?_, ih.2.2⟩
+      intro y hy
+      simp only [List.mem_cons] at hy
+      rcases hy with rfl | hy
+      · exact h
+      · exact ih.2.1 y hy
+    · have h' : p a = false := by simpa using h
+      simp only [List.takeWhile_cons, List.dropWhile_cons, h']
+      simp
+      exact h'
+
+theorem DelimsOk.transport {m m' : Mem} {fuel lo hi x : Nat} (ho : SameOutside m m' x 1) (hx : lo ≤ x ∧ x < hi) :
+    ∀ {ds : List Nat} {Ds : List (List Byte)}, DelimsOk m fuel lo hi ds Ds → DelimsOk m' fuel lo hi ds Ds
+  | [], [], _ => trivial
+  | _ :: _, _ :: _, h => ⟨⟨cstr_of_sameOutside h.1.1 ho (by have := h.1.2.2; omega), h.1.2.1, h.1.2.2⟩, DelimsOk.transport ho hx h.2⟩
+  | [], _ :: _, h => h.elim
+  | _ :: _, [], h => h.elim
+
+
+/-! ### round 3: first differences (totality theorems) -/
+
+/-- two lists of the same length are equal or have a first differing pair -/
+theorem first_diff : ∀ (l1 l2 : List Byte), l1.length = l2.length →
+    l1 = l2 ∨ ∃ p x y r1 r2, l1 = p ++ x :: r1 ∧ l2 = p ++ y :: r2 ∧ x ≠ y
+  | [], [], _ => Or.inl rfl
+  | [], _ :: _, h => by simp at h
+  | _ :: _, [], h => by simp at h
+  | a :: l1, b :: l2, h => by
+    by_cases hab : a = b
+    · subst hab
+      rcases first_diff l1 l2 (by simpa using h) with e | ⟨p, x, y, r1, r2, e1, e2, hxy⟩
+      · exact Or.inl (by rw [e])
+      · exact Or.inr ⟨a :: p, x, y, r1, r2, by simp [e1], by simp [e2], hxy⟩
+    · exact Or.inr ⟨[], a, b, l1, l2, rfl, rfl, hab⟩
+
+/-- two C strings are equal or differ first at some position; the differing "characters" may be a terminator -/
+theorem first_diff_cstr : ∀ (l1 l2 : List Byte), 0#8 ∉ l1 → 0#8 ∉ l2 →
+    l1 = l2 ∨ ∃ p x y r1 r2, l1 ++ [0#8] = p ++ x :: r1 ∧ l2 ++ [0#8] = p ++ y :: r2 ∧ x ≠ y ∧ 0#8 ∉ p
+  | [], [], _, _ => Or.inl rfl
+  | [], b :: l2, _, h2 => Or.inr ⟨[], 0#8, b, [], l2 ++ [0#8], rfl, rfl, fun e => h2 (by simp [e]), by simp⟩
+  | a :: l1, [], h1, _ => Or.inr ⟨[], a, 0#8, l1 ++ [0#8], [], rfl, rfl, fun e => h1 (by simp [e]), by simp⟩
+  | a :: l1, b :: l2, h1, h2 => by
+    by_cases hab : a = b
+    · subst hab
+      rcases first_diff_cstr l1 l2 (fun e => h1 (by simp [e])) (fun e => h2 (by simp [e])) with e | ⟨p, x, y, r1, r2, e1, e2, hxy, hp⟩
+      · exact Or.inl (by rw [e])
+      · refine Or.inr ⟨a :: p, x, y, r1, r2, by simp [e1], by simp [e2], hxy, ?_⟩
+        intro hm; simp only [List.mem_cons] at hm
+        rcases hm with hm | hm
+        · exact h1 (by simp [hm])
+        · exact hp hm
+    · exact Or.inr ⟨[], a, b, l1 ++ [0#8], l2 ++ [0#8], rfl, rfl, hab, by simp⟩
+
+
+/-- a satisfiable predicate on ℕ has a least witness -/
+theorem exists_least (P : Nat → Prop) : ∀ n, P n → ∃ k, P k ∧ ∀ i, i < k → ¬ P i := by
+  intro n
+  induction n using Nat.strongRecOn with
+  | _ n ih =>
+    intro hn
+    by_cases h : ∃ i, i < n ∧ P i
+    · obtain ⟨i, hi, hp⟩ := h; exact ih i hi hp
+    · exact ⟨n, hn, fun i hi hp => h ⟨i, hi, hp⟩⟩
+
+
+/-- the LAST occurrence of a member: `l = p ++ c :: r` with `c ∉ r` -/
+theorem last_split {c : Byte} : ∀ {l : List Byte}, c ∈ l → ∃ p r, l = p ++ c :: r ∧ c ∉ r
+  | [], h => by simp at h
+  | a :: l, h => by
+    by_cases hin : c ∈ l
+    · obtain ⟨p, r, e, hr⟩ := last_split hin
+      exact ⟨a :: p, r, by rw [e]; rfl, hr⟩
+    · have : c = a := by
+        simp only [List.mem_cons] at h
+        rcases h with h | h
+        · exact h
+        · exact absurd h hin
+      subst this
+      exact ⟨[], l, rfl, hin⟩
+
+
+/-- two C strings agree up to case or have a first pair that differs after `lowerB` (a terminator may be one of the two) -/
+theorem first_diff_cstr_lower : ∀ (l1 l2 : List Byte), 0#8 ∉ l1 → 0#8 ∉ l2 →
+    l1.map lowerB = l2.map lowerB ∨ ∃ p1 p2 x y r1 r2, l1 ++ [0#8] = p1 ++ x :: r1 ∧ l2 ++ [0#8] = p2 ++ y :: r2 ∧
+      p1.map lowerB = p2.map lowerB ∧ lowerB x ≠ lowerB y ∧ 0#8 ∉ p1
+  | [], [], _, _ => Or.inl rfl
+  | [], b :: l2, _, h2 => Or.inr ⟨[], [], 0#8, b, [], l2 ++ [0#8], rfl, rfl, rfl,
+      fun e => h2 (by have := (lowerB_eq_zero (a := b)).mp (by rw [← e]; decide); simp [this]), by simp⟩
+  | a :: l1, [], h1, _ => Or.inr ⟨[], [], a, 0#8, l1 ++ [0#8], [], rfl, rfl, rfl,
+      fun e => h1 (by have := (lowerB_eq_zero (a := a)).mp (by rw [e]; decide); simp [this]), by simp⟩
+  | a :: l1, b :: l2, h1, h2 => by
+    by_cases hab : lowerB a = lowerB b
+    · rcases first_diff_cstr_lower l1 l2 (fun e => h1 (by simp [e])) (fun e => h2 (by simp [e])) with e | ⟨p1, p2, x, y, r1, r2, e1, e2, hp, hxy, h0⟩
+      · exact Or.inl (by simp [hab, e])
+      · refine Or.inr ⟨a :: p1, b :: p2, x, y, r1, r2, by simp [e1], by simp [e2], by simp [hab, hp], hxy, ?_⟩
+        intro hm; simp only [List.mem_cons] at hm
+        rcases hm with hm | hm
+        · exact h1 (by simp [hm])
+        · exact h0 hm
+    · exact Or.inr ⟨[], [], a, b, l1 ++ [0#8], l2 ++ [0#8], rfl, rfl, rfl, hab, by simp⟩
+
+
 end Igris.C08
